@@ -199,7 +199,8 @@ def check_conformity(ob, grid, space, fail, kind):
             edges.setdefault(frozenset((int(el[e][i]), int(el[e][j]))), []).append(e)
     n_checked = 0
     for ed, nb in edges.items():
-        if len(nb) != 2 or not (sup[nb[0]] and sup[nb[1]]):
+        nb = [e for e in nb if sup[e]]       # interior edge of the support: exactly two support elements meet there (also at a junction of more sheets)
+        if len(nb) != 2:
             continue
         a, b = nb
         u, w = sorted(ed)
